@@ -11,5 +11,6 @@ INVARIANTS
   Generalises
   Sorted
   FirstFirst
+  Deterministic
   Emit
 CHECK_DEADLOCK FALSE
